@@ -81,6 +81,7 @@ def gen_spec(seed, index, tier):
         custom_masses=rng.random() < 0.3,
         calculator=rng.choice(CALCS),
         is_symmetry=rng.random() < 0.9,
+        value_scale=rng.choice([1.0, 1.0, 1.0, 1.0, 1e4, 1e7]),
     )
     if obj["dataset"] is None and obj["fc"] is None:
         obj["fc"] = "full"
@@ -190,7 +191,9 @@ def _build(w, obj, scale=1.0, nac_scale=1.0):
     units = get_default_physical_units(obj["calculator"])
     ph = Phonopy(_unitcell(w, obj), supercell_matrix=w.supercell_matrix, primitive_matrix=w.primitive_matrix, calculator=obj["calculator"],
                  factor=units["factor"], is_symmetry=obj["is_symmetry"], log_level=0)
-    fc_full = w.force_constants(ph.supercell) * scale
+    # magnitude of forces / force constants / energies: fixed-decimal formats must carry large values too (field widths)
+    vs = float(obj.get("value_scale", 1.0))
+    fc_full = w.force_constants(ph.supercell) * scale * vs
     if w.nac_method:
         n = w.nac_params(ph.primitive)
         if n is not None:
@@ -203,13 +206,13 @@ def _build(w, obj, scale=1.0, nac_scale=1.0):
         if d == "t1":
             ph.forces = w.type1_forces(ph, fc_full)
             if obj["energies"]:
-                ph.supercell_energies = [-3.25 - 0.125 * i for i in range(len(ph.dataset["first_atoms"]))]
+                ph.supercell_energies = [(-3.25 - 0.125 * i) * vs for i in range(len(ph.dataset["first_atoms"]))]
     elif d in ("t2", "t2_noforce"):
         ph.generate_displacements(distance=0.03, number_of_snapshots=2, random_seed=11)
         if d == "t2":
             ph.forces = np.array([w.forces_for(fc_full, u) for u in ph.dataset["displacements"]])
             if obj["energies"]:
-                ph.supercell_energies = [-3.25, -3.5]
+                ph.supercell_energies = [-3.25 * vs, -3.5 * vs]
     if obj["fc"] == "full":
         ph.force_constants = fc_full.copy()
     elif obj["fc"] == "compact":
